@@ -194,6 +194,19 @@ where
     fn update_A(&mut self, A: &CscMatrix<T>) {
         _update_values(&mut self.ldlsolver, &mut self.KKT, &self.map.A, &A.nzval);
     }
+
+    #[cfg(feature = "verif")]
+    fn verif_snapshot(&self) -> Option<crate::verif_hooks::KktSnapshot<T>> {
+        Some(crate::verif_hooks::KktSnapshot::new(
+            self.m,
+            self.n,
+            self.p,
+            &self.KKT,
+            &self.map,
+            &self.dsigns,
+            self.diagonal_regularizer,
+        ))
+    }
 }
 
 impl<T> DirectLDLKKTSolver<T>
